@@ -95,3 +95,16 @@ claim("C16", "Lean 4 proof of history independence of the session model + differ
       "against the first-order model (sweep counts deliberately not compared).",
       NOTE_COMMON + " Known findings D11 (contradictory first-order data) and D14 (fully_grounded quantifier whose instance set grows) are listed in "
       "known_findings.json and replayed on every run; the first-order clause rests on correspondence plus the rerun oracle, not on a theorem.", "DESIGN.md §6 C16")
+claim("C02", "Lean 4 proof that every first-order step is sound w.r.t. every model of the ground instantiation (induction over call sequences, both join branches) + ground-instance differential oracle",
+      "Theorems C02_sound_call / C02_sound / C02_sound_infer (for every quantifier-free first-order KB, weights >= 0, alpha <= 1: any interpretation "
+      "v : formula x grounding -> [0,1] that satisfies the truth-function equation of every formula at every grounding and lies inside every stored "
+      "row AND inside the world default of every row that is not stored, still does so after any node-level call incl. index restrictions, any pass, "
+      "any infer; covers the homogeneous branch and the folded outer join, duplicate merging, per-grounding contradiction filtering), "
+      "C02_no_contradiction / C02_no_model_contradiction_infer (a consistent ground theory is never driven to a contradiction), C02_no_leak / "
+      "C02_no_leak_reads (a call writes only its own / its operands' tables, and what every other grounding reads is unchanged: no leak between "
+      "groundings), C02_arity (well-shaped tables stay well-shaped). Tied to /repo: the same theory is instantiated at every tuple as a propositional "
+      "KB inside the implementation and run to convergence; every stored first-order bound must contain the ground fixpoint's; tables compared with "
+      "the first-order model.",
+      NOTE_COMMON + " 'Never tighter than the ground fixpoint' is established by the soundness theorem for every MODEL of the ground theory (hence for "
+      "the hull of all models) and checked against the implementation's own ground fixpoint by the oracle; it is not separately stated as a "
+      "lattice-theoretic theorem about the ground engine's least fixpoint.", "DESIGN.md §6 C02")
